@@ -101,6 +101,76 @@ theorem accepted_within_error {P : Type} [Inhabited P] [Add P] [Sub P] [HMul P K
   rw [hm] at hacc
   exact le_trans (hmono _ _ this) hacc
 
+/-- the selection loop with its index: the state is the start state, or the error AND the index of one element that was strictly
+    bigger than the start value -/
+theorem pick_fold_index (l : List (T2 Nat K)) (b : K) (o : Nat) :
+    let r := foldlT l (T2.mk b o) (fun st it =>
+      let upd_ := (if (decide (it.t1 > st.t0)) then (T2.mk it.t1 it.t0) else (T2.mk st.t0 st.t1))
+      (T2.mk upd_.t0 upd_.t1))
+    (r.t0 = b ∧ r.t1 = o) ∨ ∃ it ∈ l, it.t1 = r.t0 ∧ it.t0 = r.t1 ∧ b < it.t1 := by
+  induction l generalizing b o with
+  | nil => simp [foldlT]
+  | cons x xs ih =>
+    simp only [foldlT, List.foldl_cons]
+    by_cases h : x.t1 > b
+    · have := ih x.t1 x.t0
+      simp only [foldlT] at this
+      simp only [h, decide_true, if_true]
+      rcases this with ⟨h1, h2⟩ | ⟨it, hit, e1, e2, e3⟩
+      · exact Or.inr ⟨x, List.mem_cons_self, h1.symm, h2.symm, h⟩
+      · exact Or.inr ⟨it, List.mem_cons_of_mem _ hit, e1, e2, lt_trans h e3⟩
+    · have := ih b o
+      simp only [foldlT] at this
+      simp only [h, decide_false, Bool.false_eq_true, if_false]
+      rcases this with h1 | ⟨it, hit, e1, e2, e3⟩
+      · exact Or.inl h1
+      · exact Or.inr ⟨it, List.mem_cons_of_mem _ hit, e1, e2, e3⟩
+
+/-- THE SPLIT INDEX POINTS AT A POSITIVE ERROR: `max_error_for_curve` returns `(sqrt 0, 0)`, or `(sqrt e, i)` where `e > 0` is the
+    squared error of sample `i` -/
+theorem max_error_pick_index (errors : List K) :
+    ((max_error_pick errors).t0 = fsqrt 0 ∧ (max_error_pick errors).t1 = 0) ∨
+    ∃ (i : Nat) (hi : i < errors.length), (max_error_pick errors).t1 = i ∧ (max_error_pick errors).t0 = fsqrt errors[i] ∧ 0 < errors[i] := by
+  have h := pick_fold_index (K := K) (List.map (fun p => T2.mk p.2 p.1) (List.zipIdx errors)) 0 0
+  simp only at h
+  rcases h with ⟨h1, h2⟩ | ⟨it, hit, e1, e2, e3⟩
+  · left
+    simp only [max_error_pick, lit0]
+    exact ⟨by rw [h1], h2⟩
+  · right
+    simp only [List.mem_map] at hit
+    obtain ⟨p, hp, rfl⟩ := hit
+    have hget := List.mem_zipIdx_iff_getElem?.1 hp
+    obtain ⟨hi, hv⟩ := List.getElem?_eq_some_iff.1 hget
+    refine ⟨p.2, hi, ?_, ?_, ?_⟩
+    · simp only [max_error_pick, lit0]; exact e2.symm
+    · simp only [max_error_pick, lit0]; rw [hv]; exact congrArg _ e1.symm
+    · rw [hv]; exact e3
+
+/-- A REJECTED CANDIDATE IS SPLIT AT AN INTERIOR SAMPLE: if the first and the last sample have no error (the candidate starts at the
+    first point and ends at the last one, their parameters being 0 and 1), the tolerance is `≥ 0` and `sqrt 0 ≤ 0`, then whenever the
+    reported error is NOT `≤` the tolerance the split index `i` satisfies `1 ≤ i` and `i + 1 < n`: both `points[0..=i]` and
+    `points[i..]` are strictly shorter than `points` and have at least two points - the recursion of `fit_curve_cubic` terminates,
+    and `points[i-1]`, `points[i+1]` (fit.rs: `tangent_between`) are in range -/
+theorem split_interior (errors : List K) (tol : K) (htol : 0 ≤ tol) (hs0 : (fsqrt (0 : K) : K) ≤ 0)
+    (hfirst : ∀ h : 0 < errors.length, errors[0] ≤ 0)
+    (hlast : ∀ h : 0 < errors.length, errors[errors.length - 1]'(by omega) ≤ 0)
+    (hrej : ¬ (max_error_pick errors).t0 ≤ tol) :
+    1 ≤ (max_error_pick errors).t1 ∧ (max_error_pick errors).t1 + 1 < errors.length := by
+  rcases max_error_pick_index errors with ⟨h0, _⟩ | ⟨i, hi, hidx, _, hpos⟩
+  · exact absurd (h0 ▸ le_trans hs0 htol) hrej
+  · rw [hidx]
+    have hlen : 0 < errors.length := by omega
+    constructor
+    · by_contra hc
+      have : i = 0 := by omega
+      subst this
+      exact absurd (hfirst hlen) (not_le.2 hpos)
+    · by_contra hc
+      have : i = errors.length - 1 := by omega
+      subst this
+      exact absurd (hlast hlen) (not_le.2 hpos)
+
 /-- non-vacuity: three squared errors; the biggest is picked with its index -/
 example : letI : FSqrt ℚ := ⟨id⟩; (max_error_pick (K := ℚ) [1, 4, 2]).t1 = 1 := by
   simp only [max_error_pick, foldlT, List.zipIdx, List.map, List.foldl]
